@@ -52,6 +52,7 @@ Definition tx_same (g : ghost) (s : socket) (ev : event) (g' : ghost) (out : ste
   (g_fin g = true -> g_stream g' = g_stream g) /\
   (g_phase g <> PSyn -> g_phase g' <> PSyn) /\
   g_una g <= g_una g' /\
+  (g_phase g = PSyn -> g_una g' <= 1) /\
   (* SND.UNA moves only by the exact acknowledgement number of an accepted non-RST segment *)
   (g_una g < g_una g' ->
      exists ip r, ev = EvSegment ip r /\ tcp_accepts s ip r = true /\ r_control r <> CRst /\
